@@ -65,10 +65,21 @@ pub struct RCfg {
     /// that different elements spell the same namespace differently (every end tag repeats its
     /// own start tag)
     pub twin_prefixes: bool,
-    /// a prefix other than `xml` is bound to the XML namespace (Namespaces in XML forbids that, xot
-    /// accepts it: C03:reserved-prefix-or-namespace-rebound-accepted) and spells `xml:id` / `xml:lang`
-    /// attributes; also the legal redundant declaration `xmlns:xml="http://www.w3.org/XML/1998/namespace"`
+    /// many `xml:id` / `xml:lang` attributes and the legal redundant declaration
+    /// `xmlns:xml="http://www.w3.org/XML/1998/namespace"` (another prefix cannot be bound to the XML
+    /// namespace: rejected since /repo 6153ddf, see `reserved`)
     pub xml_alias: bool,
+    /// line feeds inside comments and PI data are spelled LF / CR / CR LF (the value is normalised)
+    pub comment_pi_cr: bool,
+    /// the text is NOT namespace-well-formed: a reserved declaration (`xmlns:xmlns=…`, another prefix
+    /// than `xml` or the default namespace bound to the XML namespace name, anything bound to the
+    /// xmlns namespace name), a prefixed undeclaration (`xmlns:p=""`) or a PI with the target `xml`
+    /// in some letter case is planted: `Rendered::planted` names the first one, the parser has to
+    /// reject there (InvalidNamespaceDeclaration / InvalidTarget)
+    pub reserved: bool,
+    /// the prefix `xml` is bound to another namespace name (`xmlns:xml="urn:zzz"`, `xmlns:xml=""`):
+    /// forbidden by Namespaces in XML, accepted by xot (C03:xml-prefix-rebound-accepted)
+    pub xml_rebind: bool,
     pub max_depth: usize,
 }
 
@@ -84,11 +95,14 @@ impl RCfg {
             decl_eq_space: true,
             twin_prefixes: rng.chance(2, 5),
             xml_alias: rng.chance(1, 3),
+            comment_pi_cr: rng.chance(1, 2),
+            reserved: rng.chance(1, 6),
+            xml_rebind: rng.chance(1, 10),
             max_depth: 1 + rng.below(3),
         }
     }
     pub fn plain() -> RCfg {
-        RCfg { cdata_cr: false, uri_refs: false, xmlid_spaces: false, local_xmlns: false, lone_empty_cdata: false, latin1: false, decl_eq_space: true, twin_prefixes: false, xml_alias: false, max_depth: 2 }
+        RCfg { cdata_cr: false, uri_refs: false, xmlid_spaces: false, local_xmlns: false, lone_empty_cdata: false, latin1: false, decl_eq_space: true, twin_prefixes: false, xml_alias: false, comment_pi_cr: false, reserved: false, xml_rebind: false, max_depth: 2 }
     }
 }
 
@@ -104,8 +118,6 @@ pub struct Rendered {
     /// (start, end, other spelling) of end tags whose element name has another spelling in scope:
     /// the same expanded name through another prefix (or the default namespace)
     pub close_alts: Vec<(usize, usize, String)>,
-    /// normalised values of the xml:id attributes that are spelled with another prefix than `xml`
-    pub alias_ids: Vec<String>,
     /// offsets in character data outside CDATA, between pieces
     pub text_points: Vec<usize>,
     /// offsets inside attribute values, between pieces
@@ -115,6 +127,8 @@ pub struct Rendered {
     /// offsets between top-level items
     pub top_points: Vec<usize>,
     pub has_decl: bool,
+    /// fault name of the first planted ill-formed construct (`RCfg::reserved`), in text order
+    pub planted: Option<&'static str>,
     pub feats: BTreeSet<&'static str>,
 }
 
@@ -161,12 +175,12 @@ pub struct R<'a> {
     pub tag_points: Vec<TagPoint>,
     pub close_tags: Vec<(usize, usize)>,
     pub close_alts: Vec<(usize, usize, String)>,
-    pub alias_ids: Vec<String>,
     pub text_points: Vec<usize>,
     pub attr_points: Vec<usize>,
     pub decl_points: Vec<usize>,
     pub top_points: Vec<usize>,
     pub feats: BTreeSet<&'static str>,
+    pub planted: Option<&'static str>,
     pub(crate) id_counter: usize,
     pub(crate) fresh: usize,
 }
@@ -181,12 +195,12 @@ impl<'a> R<'a> {
             tag_points: vec![],
             close_tags: vec![],
             close_alts: vec![],
-            alias_ids: vec![],
             text_points: vec![],
             attr_points: vec![],
             decl_points: vec![],
             top_points: vec![],
             feats: BTreeSet::new(),
+            planted: None,
             id_counter: 0,
             fresh: 0,
         }
@@ -194,6 +208,12 @@ impl<'a> R<'a> {
 
     pub(crate) fn feat(&mut self, f: &'static str) {
         self.feats.insert(f);
+    }
+
+    pub(crate) fn plant(&mut self, fault: &'static str) {
+        if self.planted.is_none() {
+            self.planted = Some(fault);
+        }
     }
 
     pub(crate) fn span(&mut self, path: &[usize], kind: &'static str, attr: usize, start: usize, end: usize) {
@@ -273,7 +293,7 @@ impl<'a> R<'a> {
     }
 
     /// Spelling of a line feed; `prev_bare_cr`: the previous piece was a bare CR.
-    fn lf(&mut self, prev_bare_cr: &mut bool, allow_cr: bool) -> &'static str {
+    pub(crate) fn lf(&mut self, prev_bare_cr: &mut bool, allow_cr: bool) -> &'static str {
         if !allow_cr {
             *prev_bare_cr = false;
             return "\n";
